@@ -181,22 +181,63 @@ func lowBalanceReturns(fn *ssa.Function) []lbReturn {
 			}
 			lb := lbReturn{Ret: ret}
 			// the struct value is loaded from a local alloc; find the field stores
-			if ld, ok := mi.X.(*ssa.UnOp); ok && ld.Op == token.MUL {
-				if al, ok := ld.X.(*ssa.Alloc); ok {
-					for _, ref := range *al.Referrers() {
-						if fa, ok := ref.(*ssa.FieldAddr); ok {
-							for _, r2 := range *fa.Referrers() {
-								if st, ok := r2.(*ssa.Store); ok {
-									switch an.FieldOf(fa).Name() {
-									case "CurrentBalance":
-										lb.Current = st.Val
-									case "MinBalance":
-										lb.Min = st.Val
+			fieldsOf := func(x ssa.Value) (cur, min ssa.Value) {
+				if ld, ok := x.(*ssa.UnOp); ok && ld.Op == token.MUL {
+					if al, ok := ld.X.(*ssa.Alloc); ok {
+						for _, ref := range *al.Referrers() {
+							if fa, ok := ref.(*ssa.FieldAddr); ok {
+								for _, r2 := range *fa.Referrers() {
+									if st, ok := r2.(*ssa.Store); ok {
+										switch an.FieldOf(fa).Name() {
+										case "CurrentBalance":
+											cur = st.Val
+										case "MinBalance":
+											min = st.Val
+										}
 									}
 								}
 							}
 						}
 					}
+				}
+				return
+			}
+			lb.Current, lb.Min = fieldsOf(mi.X)
+			// ... or it is built by a small constructor (newLowBalanceError(current, min)), possibly from defensive
+			// copies new(big.Int).Set(x) of its arguments: the fields are the call's arguments
+			if call, ok := mi.X.(*ssa.Call); ok && lb.Current == nil && lb.Min == nil {
+				if callee := call.Call.StaticCallee(); callee != nil && len(callee.Blocks) > 0 {
+					bindArg := func(v ssa.Value) ssa.Value {
+						for i := 0; i < 3; i++ {
+							c, ok := v.(*ssa.Call)
+							if !ok || !an.IsBigIntMethod(c, "Set") || len(c.Call.Args) != 2 {
+								break
+							}
+							if al, ok := c.Call.Args[0].(*ssa.Alloc); !ok || !al.Heap && false {
+								break
+							}
+							v = c.Call.Args[1]
+						}
+						if prm, ok := v.(*ssa.Parameter); ok {
+							for i, q := range callee.Params {
+								if q == prm && i < len(call.Call.Args) {
+									return call.Call.Args[i]
+								}
+							}
+						}
+						return nil
+					}
+					an.AllInstrs(callee, func(in2 ssa.Instruction) {
+						if r2, ok := in2.(*ssa.Return); ok && len(r2.Results) == 1 {
+							cur, min := fieldsOf(r2.Results[0])
+							if cur != nil {
+								lb.Current = bindArg(cur)
+							}
+							if min != nil {
+								lb.Min = bindArg(min)
+							}
+						}
+					})
 				}
 			}
 			out = append(out, lb)
